@@ -597,6 +597,42 @@ fn group_layer(ctx: &mut Ctx) {
             }
         }
     }
+    // two distinct points with the SAME y: x2 = (-x1 +- sqrt(-3 x1^2 - 4a)) / 2 puts (x2, y) on the curve whenever (x1, y)
+    // is; their sum is the third root (x3, -y). A chord shortcut keyed on equal y instead of equal x is wrong only here.
+    {
+        let mut pe = ctx.prng("equal_y");
+        let want = ctx.n(6, 200);
+        let mut made = 0u64;
+        let inv2 = BigUint::from(2u32).modinv(&c.p).unwrap();
+        for attempt in 0..(want * 12) {
+            if made >= want {
+                break;
+            }
+            let x1 = rand_scalar(&mut pe, &c.p);
+            let l1 = rand_scalar(&mut pe, &c.p);
+            let Some((_, y)) = r2::point_from_x(&x1) else { continue };
+            let disc = (&c.p * 4u32 * &c.p + &c.p * 4u32 - (BigUint::from(3u32) * &x1 * &x1 + BigUint::from(4u32) * &c.a) % &c.p) % &c.p;
+            let Some(sq) = r2::sqrt_p(&disc) else { continue };
+            let x2 = ((&c.p - &x1 + &sq) % &c.p * &inv2) % &c.p;
+            if x2 == x1 || !r2::on_curve(&x2, &y) {
+                continue;
+            }
+            made += 1;
+            if !ctx.mine(attempt) {
+                continue;
+            }
+            let (pa, qa) = ((x1, y.clone()), (x2, y));
+            for (la, lb) in [(BigUint::one(), BigUint::one()), (l1.clone(), BigUint::one()), (BigUint::one(), l1.clone()), (l1.clone(), (&l1 + 7u32) % &c.p)] {
+                if la.is_zero() || lb.is_zero() {
+                    continue;
+                }
+                let (lp, lq) = (r2::to_lib_point(&pa, &la), r2::to_lib_point(&qa, &lb));
+                let want_pt = r2::add(&Some(pa.clone()), &Some(qa.clone()));
+                same(ctx, "point_add", "distinct_points_equal_y", guard(|| lp.point_add(&lq)), &want_pt, json!({"P": pt_json(&lp), "Q": pt_json(&lq)}));
+                same(ctx, "point_add", "distinct_points_equal_y", guard(|| lq.point_add(&lp)), &want_pt, json!({"P": pt_json(&lq), "Q": pt_json(&lp)}));
+            }
+        }
+    }
     // bases that ARE the generator, its negative, or (the negative of) a precomputed-table point, affine and
     // re-randomised: a "this is G, use the fixed-base table" shortcut keyed on part of the coordinates fires only here
     {
@@ -654,7 +690,7 @@ pub fn run(ctx: &mut Ctx) {
     for (n, ok) in r2::selftest() {
         ctx.selftest(&n, ok);
     }
-    ctx.require(&["fp_add", "fp_sub", "fp_mul", "fp_sqr", "fp_double", "fp_triple", "fp_neg", "fp_div2", "fp_inv", "fp_pow", "fp_sqrt_residue", "fp_sqrt_nonresidue", "fp_to_mont", "fp_from_mont", "fn_add", "fn_sub", "fn_mul", "fn_pow", "fn_inv", "u256_primitives", "u512_primitives", "fp_mont_mul_carry_out_of_2^512", "fp_mul_product=0", "fp_mul_product=1", "fp_mul_product=m-1", "fn_mul_product_shape", "fp_mul_product_shape", "table_entry", "single_byte_scalar", "P_ne_Q", "P_eq_Q_same_repr", "P_eq_Q_diff_Z", "P_eq_negQ_same_Z", "P_eq_negQ_diff_Z", "infinity_canonical", "infinity_arbitrary_XY", "k=0", "k=n", "k=n+1", "k=n+small", "k=2^256-1", "k=random", "k=sparse_limbs", "k=runs_of_ones", "k=n+j_sweep", "k=n-j_sweep", "consecutive_negated_base", "consecutive_same_point_other_Z", "crafted_stored_Z_limbs", "base_point_with_zero_x", "base_point_with_special_x", "base_is_(negated)_generator_or_table_point", "to_affine_point", "predicates", "predicates_offcurve", "from_byte"]);
+    ctx.require(&["fp_add", "fp_sub", "fp_mul", "fp_sqr", "fp_double", "fp_triple", "fp_neg", "fp_div2", "fp_inv", "fp_pow", "fp_sqrt_residue", "fp_sqrt_nonresidue", "fp_to_mont", "fp_from_mont", "fn_add", "fn_sub", "fn_mul", "fn_pow", "fn_inv", "u256_primitives", "u512_primitives", "fp_mont_mul_carry_out_of_2^512", "fp_mul_product=0", "fp_mul_product=1", "fp_mul_product=m-1", "fn_mul_product_shape", "fp_mul_product_shape", "table_entry", "single_byte_scalar", "P_ne_Q", "P_eq_Q_same_repr", "P_eq_Q_diff_Z", "P_eq_negQ_same_Z", "P_eq_negQ_diff_Z", "infinity_canonical", "infinity_arbitrary_XY", "k=0", "k=n", "k=n+1", "k=n+small", "k=2^256-1", "k=random", "k=sparse_limbs", "k=runs_of_ones", "k=n+j_sweep", "k=n-j_sweep", "consecutive_negated_base", "consecutive_same_point_other_Z", "crafted_stored_Z_limbs", "base_point_with_zero_x", "base_point_with_special_x", "distinct_points_equal_y", "base_is_(negated)_generator_or_table_point", "to_affine_point", "predicates", "predicates_offcurve", "from_byte"]);
     field_layer(ctx);
     table_layer(ctx);
     group_layer(ctx);
